@@ -7,6 +7,7 @@ functional notation = extra conjunct, injectible predicates = substitution).
 import collections
 import itertools
 import json
+import re
 
 from lv.model import (expr_vars, body_vars, own_vars, head_exprs, lit_vars)
 
@@ -114,6 +115,7 @@ def _key(v):
 # open known findings; the evaluator can reproduce each so that a mismatch can be
 # attributed to exactly that root cause (never used to decide "pass").
 QUIRKS = ('list_keeps_null', 'empty_list', 'empty_count')
+KVARIANT = re.compile(r'^(ArgMin|ArgMax)([1-9])$')
 
 
 def aggregate(op, vals, quirks=()):
@@ -155,6 +157,19 @@ def aggregate(op, vals, quirks=()):
             if v is not None and v not in seen:
                 seen.append(v)
         return Bag(seen) if vals else None
+    mk = KVARIANT.match(op)
+    if mk:
+        # user wrapper `ArgMax2(x) = ArgMaxK(x, 2)`: arguments of the K extreme values,
+        # ordered by value (ArgMaxK descending, ArgMinK ascending); length min(K, n)
+        k = int(mk.group(2))
+        pairs = [(a, atom(v)) for a, v in vals if v is not None]
+        if not pairs:
+            return None
+        pairs.sort(key=lambda av: av[1], reverse=(mk.group(1) == 'ArgMax'))
+        top = pairs[:k + 1]
+        if len(set(v for a, v in top)) != len(top):
+            raise Ambiguous()       # ties among the K+1 extreme values: order unspecified
+        return [a for a, v in pairs[:k]]
     if op in ('ArgMin', 'ArgMax'):
         pairs = [(a, atom(v)) for a, v in vals if v is not None]
         if not pairs:
@@ -489,7 +504,7 @@ class Evaluator(object):
         return rows
 
     def agg_input(self, op, e, en):
-        if op in ('ArgMin', 'ArgMax'):
+        if op in ('ArgMin', 'ArgMax') or KVARIANT.match(op):
             # e is ('arrow', arg, value)
             return (self.ev1(e[1], en), self.ev1(e[2], en))
         return self.ev1(e, en)
